@@ -156,6 +156,24 @@ CLAIMS = {
         technique="Args field-read inventory + expression trees + label propagation and sibling-path comparison by abstract interpretation"),
 }
 
+# rules added in later rounds (kept apart from the first-build texts above)
+EXTRA = {
+    "C01": "Also: nothing on the reader thread discards input unseen (no skip_until / seek on the source, no skipping adaptor on the line "
+           "iterator); a read loop is left when the read reports 0 bytes; the -o sort function is interpreted as a whole on an unknown -o.",
+    "C03": "The table updater is described independently of its style (entry/and_modify/or_insert, match on Entry, get_mut/insert).",
+    "C07": "In every decode context that is not a DF17/18 TC1-4 squitter the emitter category is not written.",
+    "C08": "Slot coherence: the CPR fields and the receive time of a slot are written under one condition that does not depend on the row's previous contents.",
+    "C12": "The sweep may sit in a helper: the call chain from the reader to retain is followed, the time and the limit must be handed through unchanged.",
+    "C13": "When the reader bypasses get_message, a per-line function that receives &mut of loop-carried state is reported.",
+    "C14": "One-character cells must be provably one character wide (value ranges from the hulls of all decode contexts); text is never cut by a precision; "
+           "the header lines are obtained by constant propagation through the header builder for each flag set.",
+    "C15": "Comparators that dispatch on a captured enum are specialised to the variant seen in the abstract per-letter run; the row vector may be re-collected through a projecting map.",
+    "C16": "A -f decision of unrecognised shape is evaluated (crate functions, closures and std methods by E2 on constants) for DF 0..31 against 124 lists incl. repeats and must coincide with membership.",
+    "C17": "Every placeholder that prints Plane.reg uses Display without precision (the code is shown whole).",
+    "C18": "No other mutable local of the connect function is carried from one connection into the next.",
+    "C19": "With and without -U the stores also depend on the row's previous contents in the same way (path-condition atoms / control dependences over pre-state).",
+}
+
 NA_DEFAULT = "check under construction in this round - will be claimed once its rule runs"
 NA = {}
 
@@ -175,7 +193,7 @@ def main():
             "evidence_file": "evidence/%s.json" % pid,
             "replay_cmd_template": "./check %s --replay {path}" % pid,
             "engine": "sqfacts+sq",
-            "level_claimed": {"category": c["category"], "text": c["text"], "design_ref": c["design_ref"]},
+            "level_claimed": {"category": c["category"], "text": c["text"] + ((" " + EXTRA[pid]) if pid in EXTRA else ""), "design_ref": c["design_ref"]},
             "level_note": c["note"] + (" " + E2NOTE if "abstract interpretation" in c["technique"] else ""),
             "technique": c["technique"],
         }
